@@ -170,6 +170,8 @@ where
                     Token::AttributeOpen => in_attribute = true,
                     Token::DocComment(..) => (),
                     Token::RBracket => in_attribute = false,
+                    // An unterminated attribute: the tokenizer yields `EOF` forever
+                    Token::EOF => return Ok(false),
                     _ if !in_attribute => return Ok(false),
                     _ => (),
                 },
